@@ -75,13 +75,16 @@ type world struct {
 	byHash  map[util.Uint160]string // contract names for messages
 	ids     map[int32]string
 
-	sc    *deployed    // system call probe
-	ps    []*deployed  // P1..P4: hop / leaf / safe probes
-	tk    []*deployed  // TK, TKP: method token probes
-	th    *deployed    // TH: token hop of call chains
-	ts    []*deployed  // permission callees
-	cs    []*deployed  // permission callers
-	csDef []callerSpec // their permission specs (same order)
+	sc      *deployed     // system call probe
+	ps      []*deployed   // P1..P4: hop / leaf / safe probes
+	tk      []*deployed   // TK, TKP: method token probes
+	th      *deployed     // TH: token hop of call chains
+	ts      []*deployed   // permission callees
+	cs      []*deployed   // permission callers
+	cb      []*deployed   // CBN, CBS: callback probes (callbacks.go)
+	cbd     *asm.Contract // CBD: deployed by the cases themselves
+	cbdHash util.Uint160
+	csDef   []callerSpec // their permission specs (same order)
 
 	nonce uint32
 
@@ -226,6 +229,9 @@ func buildWorld() (*world, error) {
 	if err := w.deployPermissionFamily(); err != nil {
 		return nil, err
 	}
+	if err := w.deployCallbackProbes(); err != nil {
+		return nil, err
+	}
 	// Fund the probes (they receive GAS through onNEP17Payment) so that leaves can transfer.
 	var fund []ck.Action
 	for _, d := range append(append([]*deployed{w.sc}, w.ps...), w.tk...) {
@@ -246,6 +252,12 @@ func buildWorld() (*world, error) {
 			w.ids[st.ID] = fmt.Sprintf("K%d", i)
 		}
 	}
+	// The contract a case deploys itself gets the next free id.
+	var maxID int32
+	for id := range w.ids {
+		maxID = max(maxID, id)
+	}
+	w.ids[maxID+1] = "CBD"
 	// Baseline storage of ALL contracts, read through a fresh test context.
 	ic, err := w.newIC(trigger.Application, w.plainTx(nil, 0))
 	if err != nil {
